@@ -198,6 +198,7 @@ def _fetch_from_setup_py(
             LOG.debug("Not running setup.py for setuptools")
             return None
 
+        setup_cfg = None
         if setup_file is None:
             setup_cfg = find_in_archive(extractor, "setup.cfg", max_depth=1)
             if setup_cfg is None:
@@ -209,7 +210,7 @@ def _fetch_from_setup_py(
 
         try:
             LOG.info("Parsing setup.py %s", setup_file)
-            results = _parse_setup_py(name, setup_file, extractor)
+            results = _parse_setup_py(name, setup_file, extractor, setup_cfg)
         except (Exception, RuntimeError, ImportError):  # pylint: disable=broad-except
             LOG.warning("Failed to parse %s", name, exc_info=True)
 
@@ -576,7 +577,10 @@ def import_contents(modname: str, filename: str, contents: str) -> ModuleType:
 
 
 def _parse_setup_py(
-    name: str, setup_file: Optional[str], extractor: Extractor
+    name: str,
+    setup_file: Optional[str],
+    extractor: Extractor,
+    setup_cfg: Optional[str] = None,
 ) -> Optional[RequirementContainer]:
     """Parse from a setup.py/setup.cfg."""
     # pylint: disable=too-many-locals,too-many-statements
@@ -659,7 +663,9 @@ def _parse_setup_py(
         raise IOError("Network and I/O calls not permitted: {} {}".format(args, kwargs))
 
     if setup_file is None:
-        setup_dir = "."
+        # A setup.cfg-only project: work from the directory holding the setup.cfg,
+        # which is the top level directory inside of an archive.
+        setup_dir = os.path.dirname(setup_cfg) if setup_cfg else "."
     else:
         setup_dir = os.path.dirname(setup_file)
     abs_setupdir = os.path.abspath(setup_dir)
